@@ -131,6 +131,23 @@ fn run_render_text(src: &str) -> J {
     json!({"diags": diags, "text": text.as_str()})
 }
 
+/// Tokens only (no parser, no rendering): long inputs whose diagnostics would take for ever to render.
+fn run_lex_only(src: &str) -> J {
+    let arena = Arena::new(1 << 30).unwrap();
+    let mut lex = Lexer::new(src, &arena);
+    let mut n = 0usize;
+    let mut last_end = 0usize;
+    let mut bad = 0usize;
+    for st in lex.by_ref() {
+        n += 1;
+        if st.span.start > st.span.end || st.span.end > src.len() || st.span.start < last_end {
+            bad += 1;
+        }
+        last_end = st.span.end.max(last_end);
+    }
+    json!({"tokens": n, "lex_errors": lex.errors.diagnostics.len(), "bad_spans": bad})
+}
+
 pub fn worker() {
     let mut out = response_channel();
     quiet_panics();
@@ -151,6 +168,7 @@ pub fn worker() {
             let res = guarded(|| match mode.as_str() {
                 "front" => run(&src),
                 "rendertext" => run_render_text(&src),
+                "lex" => run_lex_only(&src),
                 _ => run_render_anyway(&src),
             });
             let mut r = match res {
